@@ -133,6 +133,8 @@ def run_case(case):
             res.check(all(tuple(key[i]) <= tuple(key[i + 1]) for i in range(n - 1)), "geometry:sort-order",
                       f"{label0}: sorted columns are not ordered by shank, row, descending column")
     res.check(sr.shape == (ns, rec.nc), "reader:shape", f"{label0}: shape {sr.shape}")
+    geom_before = {k: np.array(v) for k, v in sr.geometry.items()} if geom_expected and sr.geometry is not None else None
+    s2v_before = np.array(sr.sample2volts)
     # -------- selector workload through the three entry points
     for p in range(case["pairs"]):
         nsel, nlab = S.sample_selector(rng, ns, fancy_ok=not cbin, seams=seams)
@@ -197,6 +199,19 @@ def run_case(case):
             compare(res, got, exp, cm, label, key)
         except Exception as e:
             res.exception(key + ":exception", e, label)
+    # -------- reading is read-only: what a read returns belongs to the caller (scribbling over it does not change the next read), and the reader's
+    #          geometry and conversion factors are the same after the workload as before
+    try:
+        a0 = sr[0:min(ns, 7), :]
+        a0[...] = -12345.0
+        a1 = sr[0:min(ns, 7), :]
+        compare(res, a1, cal[0:min(ns, 7)], syncmask, f"{label0} second read of rows 0:7 after the first result was overwritten by the caller", "read:shared-buffer")
+        if geom_before is not None:
+            same = set(sr.geometry) == set(geom_before) and all(np.array_equal(sr.geometry[k], geom_before[k]) for k in geom_before)
+            res.check(same, "geometry:changed-by-reading", f"{label0}: the reader's geometry changed while reading", counter="state_unchanged_checked")
+        res.check(np.array_equal(np.array(sr.sample2volts), s2v_before), "read:conversion-changed-by-reading", f"{label0}: sample2volts changed while reading")
+    except Exception as e:
+        res.exception("read:exception", e, f"{label0} repeat read")
     sr.close()
     res.sig = f"{kind}/{enc}/{mode}/{n}/{sort}/{cbin}"
     res.nontrivial = bool(nontrivial)
